@@ -59,6 +59,10 @@ Cfg(e) == IF e = 0 THEN cfg.A ELSE cfg.B
 UseIL == cfg.A.il /\ cfg.B.il
 \* e told its peer that zero checksums are acceptable (with the DTLS method): it enabled them and its parameter was not
 \* rewritten in transit to name another method
+\* e's Supported Extensions reached the peer without I-FORWARD-TSN (a foreign stack, or rewritten in transit)
+NoIfwd(e) == "noifwd" \in DOMAIN Cfg(e) /\ Cfg(e).noifwd
+\* partial reliability needs a forward-TSN variant both sides can use: the plain one without interleaving, the I- one with it
+PrUsable(e) == IF UseIL THEN ~NoIfwd(0) /\ ~NoIfwd(1) ELSE TRUE
 ZcAnn(e) == Cfg(e).zc /\ ~("zcforeign" \in DOMAIN Cfg(e) /\ Cfg(e).zcforeign)
 Get(f, k, d) == IF k \in DOMAIN f THEN f[k] ELSE d
 Upd(f, k, v) == (k :> v) @@ f
@@ -332,8 +336,8 @@ DataViol(c) ==
                              THEN {V("C18_EmptyWriteNoEffect", <<e, c.sid, c.id, seq, Cardinality(same)>>)} ELSE {})
                   ELSE {}
           ELSE {})
-    \cup (IF known /\ m.rtype = 1 /\ m.ppi # 50 /\ ntx > m.rval + 1 THEN {V("C06_RexmitCap", <<e, c.tsn, c.id, ntx, m.rval, IF m.len > c.len THEN "fragmented" ELSE "whole">>)} ELSE {})
-    \cup (IF known /\ m.rtype = 2 /\ m.ppi # 50 /\ late > 1 THEN {V("C06_Lifetime", <<e, c.tsn, c.id, late, m.rval, IF m.len > c.len THEN "fragmented" ELSE "whole">>)} ELSE {})
+    \cup (IF known /\ m.rtype = 1 /\ m.ppi # 50 /\ ntx > m.rval + 1 /\ PrUsable(e) THEN {V("C06_RexmitCap", <<e, c.tsn, c.id, ntx, m.rval, IF m.len > c.len THEN "fragmented" ELSE "whole">>)} ELSE {})
+    \cup (IF known /\ m.rtype = 2 /\ m.ppi # 50 /\ late > 1 /\ PrUsable(e) THEN {V("C06_Lifetime", <<e, c.tsn, c.id, late, m.rval, IF m.len > c.len THEN "fragmented" ELSE "whole">>)} ELSE {})
 
 TrChunkData ==
   /\ IsEv("c") /\ E.k \in DataKinds /\ ~pkt[E.pid].forged
@@ -738,7 +742,7 @@ SnapViol(s, R) ==
                              crossed == py # {} /\ (CHOOSE z \in py : TRUE).ba > th /\ y.ba <= th
                          IN Get(misc.cbs, <<e, y.sid>>, 0) # (IF crossed THEN 1 ELSE 0)}}
     \* C04: negotiated features of an established endpoint agree with what both sides enabled, and stay put
-    \cup (IF s.st = "established" /\ (s.useil # UseIL \/ s.useifwd # UseIL \/ (s.usefwd # ~UseIL))
+    \cup (IF s.st = "established" /\ (s.useil # UseIL \/ s.useifwd # (UseIL /\ ~NoIfwd(Peer(e))) \/ (s.usefwd # ~UseIL))
           THEN {V("C04_Agreement", <<e, s.useil, s.usefwd, s.useifwd, cfg.A.il, cfg.B.il>>)} ELSE {})
     \cup (IF s.sendzc /\ ~ZcAnn(Peer(e)) THEN {V("C04_ZeroChecksumAgreement", <<e, s.sendzc, ZcAnn(Peer(e))>>)} ELSE {})
     \cup (IF s.st = "established" /\ s.sendzc # ZcAnn(Peer(e)) THEN {V("C04_ZeroChecksumUsed", <<e, s.sendzc, ZcAnn(Peer(e))>>)} ELSE {})
